@@ -600,6 +600,7 @@ func (r *ChunkReader) resolveSeekPosition() error {
 
 	// Walk the branch nodes until we find the leaf node containing the
 	// seekPosition.
+	cOffset := r.rootNodeCOffset
 	cBias := int64(0)
 	dBias := int64(0)
 	for {
@@ -615,6 +616,7 @@ func (r *ChunkReader) resolveSeekPosition() error {
 		parentCodecHasMixBit := r.currNode.codecHasMixBit()
 		parentVersion := r.currNode.version()
 		parentCOffMax := cBias + r.currNode.cPtrMax()
+		parentDPtrMax := r.currNode.dPtrMax()
 		childCOffset := r.currNode.cOff(i, cBias)
 		childCBias := cBias
 		if sTag := int(r.currNode.sTag(i)); sTag < r.currNode.arity() {
@@ -629,6 +631,16 @@ func (r *ChunkReader) resolveSeekPosition() error {
 			return err
 		}
 
+		// As per the RAC spec, "In order to rule out infinite loops, at least
+		// one of these two conditions must hold: The child's Branch COffset is
+		// less than the parent's Branch COffset. The child's DPtrMax is less
+		// than the parent's DPtrMax."
+		if (childCOffset >= cOffset) && (r.currNode.dPtrMax() >= parentDPtrMax) {
+			r.err = errInvalidIndexNode
+			return r.err
+		}
+
+		cOffset = childCOffset
 		cBias = childCBias
 		dBias = childDBias
 	}
